@@ -114,7 +114,7 @@ CHECKS = {
         campaigns=[dict(engine="natconn", n=n(2000, 40000)), dict(engine="udp", n=n(100, 2000), netns=True),
                    dict(engine="natlife", n=n(16, 300), netns=True, args={"life": 1})],
         trusted_base=UDP_TB + ["model Model/NatConn.lean of natconn.onWrite/onRead tied by the `natconn` campaign through the verif hook service/verif_export.go",
-                               "Gen/Code.lean: Lean translations of natconn.onWrite, natconn.onRead regenerated from the Go source on every run by extract/golean.go (trusted translator; subset: assignments, if/else, return, range and counting loops, struct literals, maps, a fixed table of standard-library operations) over the run-time prelude Model/GoRT.lean (trusted meaning of Go maps, slices, ints, time, sync.Once, errors, effects); Proofs/Tie*.lean prove for all inputs that the translation never panics and does what the hand model does"],
+                               "Gen/Code.lean: Lean translations of natconn.onWrite, natconn.onRead, natconn.WriteTo, natconn.ReadFrom regenerated from the Go source on every run by extract/golean.go (trusted translator; subset: assignments, if/else, return, range and counting loops, struct literals, maps, a fixed table of standard-library operations) over the run-time prelude Model/GoRT.lean (trusted meaning of Go maps, slices, ints, time, sync.Once, errors, effects); Proofs/Tie*.lean prove for all inputs that the translation never panics and does what the hand model does"],
         assumptions=UDP_AS + ["real-time bounds (teardown 'within bounded time', 'promptly') are observed by the campaigns, not proved: the model has a logical clock"],
     ),
     "C16": dict(
